@@ -60,7 +60,8 @@ def departure_unblocks(ctx, P, views, iters):
     for view in views:
         # roots: the methods whose own body lowers the population (a private helper is replaced by its callers)
         roots, todo = set(), [m for m in view.methods() if m != "__init__" and any(
-            isinstance(x, ast.AugAssign) and isinstance(x.op, ast.Sub) and rules.is_self_attr(x.target, "number_of_individuals")
+            (isinstance(x, ast.AugAssign) and isinstance(x.op, ast.Sub) and rules.is_self_attr(x.target, "number_of_individuals")) or
+            (isinstance(x, ast.Assign) and rules.is_self_attr(x.targets[0], "number_of_individuals") and isinstance(x.value, ast.BinOp) and isinstance(x.value.op, ast.Sub))
             for x in ast.walk(view.resolve(m)[1]))]
         while todo:
             m = todo.pop()
